@@ -439,8 +439,16 @@ func (c *Ctx) writeShard() {
 		v2 := *v
 		r.Viols = append(r.Viols, &v2)
 	}
-	c.nontrivial.Range(func(k, _ any) bool { h := k.([20]byte); r.Nontrivial = append(r.Nontrivial, fmt.Sprintf("%x", h[:])); return true })
-	c.outcomes.Range(func(k, _ any) bool { h := k.([20]byte); r.Outcomes = append(r.Outcomes, fmt.Sprintf("%x", h[:])); return true })
+	c.nontrivial.Range(func(k, _ any) bool {
+		h := k.([20]byte)
+		r.Nontrivial = append(r.Nontrivial, fmt.Sprintf("%x", h[:]))
+		return true
+	})
+	c.outcomes.Range(func(k, _ any) bool {
+		h := k.([20]byte)
+		r.Outcomes = append(r.Outcomes, fmt.Sprintf("%x", h[:]))
+		return true
+	})
 	data, _ := json.Marshal(r)
 	os.Stdout.Write([]byte("SHARD-RESULT " + string(data) + "\n"))
 }
